@@ -54,12 +54,12 @@ MODEL_COMMON = (
 MODELS = {
     "C01": "an independent numpy implementation of exp(symbol(k) dt) for Advection, Diffusion (scalar, diagonal, full matrix), AdvectionDiffusion, Dispersion, HyperDiffusion and GeneralLinearStepper on band-limited states that excite the highest retained mode of every axis (1-3 D, odd and even N, dt = 0.05 and 7); 4 calls with dt = one call with 4 dt for every linear class; a call with -dt undoes a call with dt for Advection, Dispersion, Wave.",
     "C02": "observed convergence order of ETDRK1-4 under dt-halving against an independent integrating-factor RK4 of the same semi-discrete system, for a real, two complex and a purely imaginary linear symbol; ETDRK0 = exp(L dt); successive refinements of the KdV, Burgers and generic convection steppers contract like 2^p (float64 session).",
-    "C03": None,
+    "C03": "the 1D convection (both forms), gradient-norm, general and cubic polynomial terms on a band-truncated broadband state vs the same term evaluated on a grid twice as fine (which cannot alias), coefficient by coefficient on the retained band, and zero outside it (N = 12, 15, 16, 18, 24; 2/3 rule, 1/2 for the cubic).",
     "C04": "ifft(fft(u)) = u; make_grid = j L / N; for both indexing options wavenumbers and transforms have matching shapes.",
     "C05": "derivative of orders 1-3 of sin(k.x) with the highest retained mode vs the analytic partial derivatives; Poisson solution vs the analytic zero-mean solution; two domain extents.",
     "C06": "filter_jit / jit(lambda) / vmap / rollout / jit(rollout) / vmap(rollout) vs rollout(vmap) against eager one-at-a-time evaluation for fourteen stepper classes; batches of steppers built with filter_vmap over a parameter (Burgers, KS, FisherKPP incl. 0, AllenCahn incl. 0, KdV incl. 0) vs steppers built one at a time; stacked RepeatedSteppers under filter_vmap / filter_jit, also after tree_at of the inner steppers.",
     "C07": "forward-mode derivatives w.r.t. diffusivity (also at 0), convection scale, dt, reaction rate (also at 0), zeroth-order linear coefficient (also at 0), velocity, dispersivity, generic coefficients and the state (also through rollouts), orders 1-4, vs central finite differences; reverse mode vs forward mode (adjoint identity); Jacobian of a linear stepper = the stepper (float64 session).",
-    "C08": None,
+    "C08": "step of the translated state = translated step (six steppers, 1-3 D, whole-cell shifts on every axis); step of the axis-permuted state = permuted step (five isotropic steppers, velocity channels permuted with the axes, odd grids for odd-order terms); 2D stepper on a state constant along one axis = the 1D stepper.",
     "C09": "spatial mean after each of four successive steps vs the initial mean for Advection, Diffusion, Dispersion, HyperDiffusion, Burgers (conservative, 1D, single-channel), KdV, conservative KS, Cahn-Hilliard, 2D vorticity and 3D velocity Navier-Stokes (orders 1, 2, 4; N = 16, 15, 12 / 8, 9, 12 / 6); work <u, N(u)> = 0 of the 1D convection term (both forms; N = 12, 15, 16, 18, 24) and energy / enstrophy production = 0 of the 2D vorticity convection on band-truncated states; spatially constant equilibria are fixed points.",
     "C10": "spectral divergence of make_incompressible(v) and Leray(v) = 0, both idempotent, both agree (2-3 D, odd and even N, states with the highest retained modes); the 3D Navier-Stokes and Kolmogorov velocity steppers keep a solenoidal state solenoidal over three successive steps (orders 1, 2, 4).",
     "C11": "L2 norm after each of three successive steps <= norm before, for Advection, Diffusion, AdvectionDiffusion, Dispersion, HyperDiffusion and a generic dissipative-dispersive stepper on broadband states with Nyquist content, dt = 0.05, 3, 400, 1-3 D; = on odd grids for Advection and Dispersion.",
@@ -70,7 +70,7 @@ MODELS = {
     "C16": "Parseval (fourier_* = spatial metric), zero for identical inputs, symmetry, L^D scaling, additivity over channels and over disjoint bands, homogeneity, scale-freeness of nRMSE, correlation = +-1 for proportional fields.",
     "C17": "amplitude spectrum of a cos(k.x): amplitude a in bin round(|k|), zero elsewhere (1-3 D, odd and even N, highest retained mode, mixed signs); 1D Parseval of the summed power spectrum; channels independent.",
     "C18": "shape (1, N, ..., N), finiteness, same key twice, zero mean, unit std, unit maximum, scale factor, clamping limits reached, mean inside the requested offset range, Fourier content confined to the cutoff, one channel per sub-generator, function form = sampled form (eleven generator configurations, two keys, 1-3 D).",
-    "C19": None,
+    "C19": "ETDRK1-4 coefficients and steps are finite for real and complex symbols with Re(lambda dt) <= 0 from 0 up to |lambda dt| = 1e15; results and stored arrays of seven steppers carry the session's precision; the zero state maps to a finite state (zero for unforced steppers).",
     "C20": "for four stepper classes, a correctly shaped state is accepted (same shape, same values) and four malformed states (extra channel, batch axis, missing channel axis, wrong points per axis) raise ValueError after each of: nothing, tree_map, tree_at, partition-combine, flatten-unflatten, filter_jit, RepeatedStepper with 1 and 3 sub-steps, a rebuilt RepeatedStepper, vmap; every rejection operation of the catalogue must raise ValueError in the empty history too.",
 }
 
